@@ -45,7 +45,7 @@ PARTIAL = [
     "C04_rolling_wf_partial covers the grouped rolling only; the ungrouped rule does not re-apply the parent "
     "(C04_rolling_counterexample; D43)",
     "the collapse of the child to a Series is sound only for operators that act on a Series as on the one-column frame; "
-    "ExplodeFrame, Round(dict) and Where(frame condition) do not (D44, D45, D46: search only)",
+    "Round(dict) and Where(frame condition) do not (D45, D46: search only)",
     "C04_widening is proven per rule (the child projection does not depend on unrequested input columns) and for sources; "
     "the whole-plan statement is covered by the end-to-end widened-vs-original search only",
     "rules over Series inputs (ResetIndex of a Series, Projection of a Series), MultiIndex / non-string labels, "
@@ -389,8 +389,7 @@ def _plain_insts():
                     continue
                 e = cands[0]
             out.append(Inst("plain", e, [e.frame], f"frame={rc(e.frame.columns)} extra=-", list(e.columns), tag=nm))
-        ex = ExplodeFrame(df.expr, cols[1])
-        out.append(Inst("plain", ex, [ex.frame], f"frame={rc(cols)} extra={cols[1]}", list(cols), tag="ExplodeFrame"))
+        pass  # ExplodeFrame moved to the keyed family (D44: its own rule keeps the input a frame)
     return out
 
 
@@ -733,6 +732,7 @@ def fam_keyed(ctx):
             ("gb.first", df.groupby(b).first().expr, [b]),
             ("gb.ffill", df.groupby(k).ffill().expr, [k]),
             ("gb.median", df.groupby(k).median().expr, [k]),
+            ("explode", df.explode(b).expr, [b]),
             # a list slice names input columns the chunk functions select: they stay with the keys (D96)
             ("gb.slice2.sum", df.groupby(k)[[cols[0], cols[1]]].sum().expr, [k, cols[0], cols[1]]),
             ("gb.slice2.first", df.groupby(k)[[cols[1], cols[0]]].first().expr, [k, cols[1], cols[0]]),
